@@ -31,6 +31,8 @@ theorem run_skip {n : Nat} {d d2 : Bytes} (h : skipWs d = some d2) (fuel : Nat) 
   | zero => rfl
   | succ f => simp only [run, step, h, skipWs_idem h]
 
+theorem ret_av_eq : ret .arrayValue = .arrayValue := rfl
+
 /-- `{` as a value (ObjectValue or ArrayValue): the placeholder is pushed. -/
 theorem step_open {n : Nat} {st : St} {g X : Bytes}
     (hst : st.state = .objectValue ∨ st.state = .arrayValue) (hg : Blank g) :
@@ -100,6 +102,7 @@ theorem braced_open {v : JVal} {a : Bytes} (hc : v.isBraced) (hv : JValidV v a) 
   | arrS g g0 s0 rest gc => simp only [JValidV] at hv; exact ⟨g, _, rfl, hv.1⟩
   | arrC g first rest gc => simp only [JValidV] at hv; exact ⟨g, _, rfl, hv.1⟩
   | ghostIn g b1 b2 v => simp only [JValidV] at hv; exact ⟨g, _, rfl, hv.1⟩
+  | mixed g g0 k g1 o v rest gm m0 elems gc => simp only [JValidV] at hv; exact ⟨g, _, rfl, hv.1⟩
 
 /-- a braced value is its blanks, `{`, and its inside. -/
 theorem render_inner {v : JVal} (hc : v.isBraced) : jrenderV v = v.gap ++ 123 :: jinner v := by
@@ -136,6 +139,45 @@ theorem step_valX {n : Nat} {st : St} {g : Bytes} {s : Scal} {X : Bytes}
     rcases hst with hst | hst
     · simp [stepAt, hst, stepObjectValue, hlex, ret]
     · simp [stepAt, hst, stepArrayValue, hlex, ret]
+
+/-- KeyValueSeparator sees neither an operator nor `{`: the "key" just read was the first element of
+the array part — `MixedContainer` is inserted in front of it and the parser goes on in mixed mode. -/
+theorem step_kvs_mixed {n : Nat} {st : St} {T : List Tok} {l : Tok} {E : Bytes} {c : UInt8} {r : Bytes}
+    (hst : st.state = .kvs) (hT : st.tape = T ++ [l]) (hsk : skipWs E = some (c :: r))
+    (hop : lexOperator true (c :: r) = none) (hc : c ≠ 123) :
+    step n st E =
+      .cont { st with tape := T ++ [.mixedContainer, l], state := .arrayValue, mixed := true } (c :: r) := by
+  simp only [step, hsk, stepAt, hst]
+  simp [stepKvs, hop, hc, hT, insertBeforeLast]
+
+/-- ArrayValue sees `}` while the innermost container is an object (mixed container). -/
+theorem step_av_close_obj {n : Nat} {st : St} {gc X : Bytes} {P : Nat} {r : PState} (hst : st.state = .arrayValue)
+    (hg : Blank gc) (hp : st.parent ≠ 0) (hlt : st.parent < st.tape.length)
+    (hpt : st.tape[st.parent]? = some (.object P false))
+    (hcs : closeState st.tape[P]? = (false, r)) :
+    step n st (gc ++ 125 :: X) =
+      .cont { state := r, mixed := false, parent := P,
+              tape := st.tape.set st.parent (.object st.tape.length st.mixed) ++ [Tok.endTok st.parent] } X := by
+  simp only [step, skipWs_blank hg, skipWs_cons X blank_close (by decide), stepAt, hst]
+  simp only [stepArrayValue, hpt, endOf, hcs]
+  simp [hp, setTok, hlt]
+
+/-- a run of scalars in ArrayValue (whatever the mixed flag). -/
+theorem run_elems (n : Nat) : ∀ (es : List (Bytes × Scal)) (after : Bytes) (fuel : Nat) (st : St),
+    ElemsValid es after → st.state = .arrayValue →
+    run n (fuel + es.length) st (renderElems es ++ after) =
+      run n fuel { st with tape := st.tape ++ elemToks es after } after
+  | [], after, fuel, st, _, _ => by simp [renderElems, elemToks]
+  | (g, s) :: r, after, fuel, st, hv, hst => by
+    simp only [ElemsValid] at hv
+    have hfuel : fuel + ((g, s) :: r).length = (fuel + r.length) + 1 := by simp; omega
+    rw [hfuel]
+    simp only [renderElems, List.append_assoc]
+    rw [run_cont (step_valX (.inr hst) hv.1 hv.2.1 hv.2.2.1)]
+    rw [hst, ret_av_eq]
+    rw [run_elems n r after fuel _ hv.2.2.2 rfl]
+    congr 1
+    simp [elemToks, hst]
 
 theorem closeState_append {T R : List Tok} {P : Nat} (h : P < T.length) :
     closeState (T ++ R)[P]? = closeState T[P]? := by
@@ -208,6 +250,11 @@ theorem step_key_close' {n : Nat} {st : St} {gc X : Bytes} {P : Nat} {r : PState
 
 /-! ### bookkeeping -/
 
+theorem len_elemToks : ∀ (es : List (Bytes × Scal)) (a : Bytes), (elemToks es a).length = es.length
+  | [], _ => rfl
+  | (_, _) :: r, a => by simp [elemToks, len_elemToks r a]
+
+
 mutual
 theorem len_jtapeV : ∀ (v : JVal) (b : Nat) (a : Bytes), (jtapeV v b a).length = jcntV v
   | .scal _ _, _, _ => by simp [jtapeV, jcntV]
@@ -222,6 +269,10 @@ theorem len_jtapeV : ∀ (v : JVal) (b : Nat) (a : Bytes), (jtapeV v b a).length
     simp only [jtapeV, jcntV, List.length_append, List.length_cons, List.length_nil, len_jtapeV first, len_jtapeVs rest]
     try omega
   | .ghostIn _ _ _ v, b, a => by simp only [jtapeV, jcntV, len_jtapeV v]
+  | .mixed _ _ _ _ o v rest _ _ elems _, b, a => by
+    simp only [jtapeV, jcntV, List.length_append, List.length_cons, List.length_nil, len_jtapeV v, len_jtapeF rest,
+      len_elemToks]
+    omega
 theorem len_jtapeF : ∀ (fs : JFields) (b : Nat) (a : Bytes), (jtapeF fs b a).length = jcntF fs
   | .nil, _, _ => by simp [jtapeF, jcntF]
   | .cons _ _ _ o v rest, b, a => by
@@ -271,6 +322,9 @@ theorem head_jrenderV (v : JVal) (after Z : Bytes) (hv : JValidV v after) :
   | ghostIn g b1 b2 v =>
     simp only [JValidV] at hv
     simp only [jrenderV, List.append_assoc, List.cons_append]; exact hb _ hv.1
+  | mixed g g0 k g1 o v rest gm m0 elems gc =>
+    simp only [JValidV] at hv
+    simp only [jrenderV, List.append_assoc, List.cons_append]; exact hb _ hv.1
 
 /-- a non-empty container starts with blanks and `{`. -/
 theorem container_open {v : JVal} {a : Bytes} (hc : v.isContainer) (hv : JValidV v a) :
@@ -282,6 +336,7 @@ theorem container_open {v : JVal} {a : Bytes} (hc : v.isContainer) (hv : JValidV
   | arrS g g0 s0 rest gc => simp only [JValidV] at hv; exact ⟨g, _, rfl, hv.1⟩
   | arrC g first rest gc => simp only [JValidV] at hv; exact ⟨g, _, rfl, hv.1⟩
   | ghostIn g b1 b2 v => simp only [JValidV] at hv; exact ⟨g, _, rfl, hv.1⟩
+  | mixed g g0 k g1 o v rest gm m0 elems gc => simp only [JValidV] at hv; exact ⟨g, _, rfl, hv.1⟩
 
 /-- …and what follows the `{` is not a `}`. -/
 theorem container_head {v : JVal} {a : Bytes} (hc : v.isContainer) (hv : JValidV v a) (W : Bytes) :
@@ -315,6 +370,10 @@ theorem container_head {v : JVal} {a : Bytes} (hc : v.isContainer) (hv : JValidV
     refine ⟨g, _, by simp only [jrenderV, List.append_assoc, List.cons_append]; rfl, hv.1, 123,
       b2 ++ 125 :: (jinner v ++ W), ?_, by decide⟩
     rw [skipWs_blank hv.2.1, skipWs_cons _ blank_open (by decide)]
+  | mixed g g0 k g1 o v rest gm m0 elems gc =>
+    simp only [JValidV] at hv
+    refine ⟨g, _, by simp only [jrenderV, List.append_assoc, List.cons_append]; rfl, hv.1, ?_⟩
+    exact hsc _ hv.2.1 hv.2.2.2.2.2.1
 
 structure Ctx3 (st : St) : Prop where
   mixed : st.mixed = false
@@ -362,6 +421,7 @@ theorem skipWs_jrenderV_some {v : JVal} {a : Bytes} (hv : JValidV v a) (W : Byte
   | arrS g g0 s0 rest gc => simp only [JValidV] at hv; simpa [jrenderV] using ho _ hv.1
   | arrC g first rest gc => simp only [JValidV] at hv; simpa [jrenderV] using ho _ hv.1
   | ghostIn g b1 b2 v => simp only [JValidV] at hv; simpa [jrenderV] using ho _ hv.1
+  | mixed g g0 k g1 o v rest gm m0 elems gc => simp only [JValidV] at hv; simpa [jrenderV] using ho _ hv.1
 
 theorem skipWs_elems_some {vs : JVals} {a : Bytes} (hv : JValidVs vs a) {gc : Bytes} (hgc : Blank gc) (Y : Bytes) :
     ∃ d2, skipWs (jrenderVs vs ++ (gc ++ 125 :: Y)) = some d2 := by
@@ -397,6 +457,15 @@ theorem Ctx3.after_key {st : St} (hc : Ctx3 st) (hst : st.state = .key) (k : Sca
       exact closeState_plain (k.tok_plain X)
   · have := hc.append hne (k.tok X :: R) s (by rw [hs, hst]; rfl)
     exact this
+
+theorem skipWs_elemsS_some {es : List (Bytes × Scal)} {a : Bytes} (hv : ElemsValid es a) {gc : Bytes}
+    (hgc : Blank gc) (Y : Bytes) : ∃ d2, skipWs (renderElems es ++ (gc ++ 125 :: Y)) = some d2 := by
+  cases es with
+  | nil => exact ⟨_, by simp only [renderElems, List.nil_append]; rw [skipWs_blank hgc, skipWs_cons Y blank_close (by decide)]⟩
+  | cons e r =>
+    obtain ⟨g, s⟩ := e
+    simp only [ElemsValid] at hv
+    exact ⟨_, by simp only [renderElems, List.append_assoc]; rw [skipWs_blank hv.1, skipWs_scalX hv.2.1]⟩
 
 /-- two states are equal when their fields are. -/
 theorem St.ext' {a b : St} (h1 : a.state = b.state) (h2 : a.mixed = b.mixed) (h3 : a.parent = b.parent)
@@ -532,6 +601,54 @@ theorem jrun_V (n : Nat) : ∀ (v : JVal) (after : Bytes) (fuel : Nat) (st : St)
     rw [hr, show fuel + jstepsV v - 1 + 1 = fuel + jstepsV v by omega]
     rw [jrun_V n v after fuel st hvv hst hc hne]
     simp only [jtapeV]
+  | .mixed g g0 k g1 o v rest gm m0 elems gc, after, fuel, st, hv, hst, hc, hne => by
+    simp only [JValidV] at hv
+    obtain ⟨hg, h0, h1, hgm, hgc, hk, hkb, hvv, hvr, hm0, hm0b, hmx, hel⟩ := hv
+    have hlen : 0 < st.tape.length := List.length_pos_iff.2 hne
+    have hfuel : fuel + jstepsV (.mixed g g0 k g1 o v rest gm m0 elems gc) =
+        (((((((fuel + 1) + elems.length) + 1) + 1) + jstepsF rest) + jstepsV v) + 1 + 1) + 1 := by
+      simp only [jstepsV]; omega
+    rw [hfuel]
+    simp only [jrenderV, List.append_assoc, List.cons_append, List.nil_append]
+    rw [run_cont (step_open hst hg)]
+    rw [run_cont (step_parseopen_fieldX (T := st.tape) rfl (by simpa using hc.mixed) rfl h0 hk h1 hkb)]
+    have hop := step_kvs_op (n := n) (g := []) (o := o)
+      (st := { state := .kvs, mixed := false, parent := st.tape.length,
+               tape := st.tape ++ [.object st.parent false,
+                 k.tok (g1 ++ (o.text ++ (jrenderV v ++ (jrenderF rest ++ (gm ++ (m0.text ++
+                   (renderElems elems ++ (gc ++ 125 :: after))))))))] })
+      (Y := jrenderV v ++ (jrenderF rest ++ (gm ++ (m0.text ++ (renderElems elems ++ (gc ++ 125 :: after))))))
+      rfl rfl .nil (head_jrenderV v _ _ hvv)
+    simp only [List.nil_append] at hop
+    rw [run_cont hop]
+    simp only [List.append_assoc, List.cons_append, List.nil_append]
+    rw [jrun_V n v (jrenderF rest ++ (gm ++ (m0.text ++ (renderElems elems ++ (gc ++ 125 :: after))))) _ _ hvv
+      (.inl rfl) (hc.inner hne (.object st.parent false) _ .objectValue rfl) (by simp)]
+    simp only [ret_ov, List.append_assoc, List.cons_append, List.nil_append]
+    rw [jrun_F n rest (gm ++ (m0.text ++ (renderElems elems ++ (gc ++ 125 :: after)))) _ _ hvr rfl
+      (hc.inner hne (.object st.parent false) _ .key rfl)]
+    -- the first element of the array part is first read as a key …
+    rw [run_cont (step_key_scalX rfl hgm hm0 hm0b)]
+    -- … until KeyValueSeparator finds no operator behind it
+    obtain ⟨d2, hd2⟩ := skipWs_elemsS_some hel hgc after
+    obtain ⟨c, r, rfl, _⟩ := skipWsAux_some _ false d2 hd2
+    obtain ⟨hop2, hc123⟩ := hmx _ hd2
+    rw [run_cont (step_kvs_mixed (l := m0.tok (renderElems elems ++ (gc ++ 125 :: after))) rfl
+      rfl hd2 hop2 (by simpa using hc123))]
+    rw [← run_skip hd2]
+    simp only [List.append_assoc, List.cons_append, List.nil_append]
+    -- the other elements, then `}`
+    rw [run_elems n elems (gc ++ 125 :: after) _ _ hel rfl]
+    rw [run_cont (step_av_close_obj (P := st.parent) (r := ret st.state) rfl hgc (by simp; omega) (by simp)
+      (by simp) (by simpa using hc.close_append hne _))]
+    congr 1
+    refine St.ext' rfl hc.mixed.symm rfl ?_
+    simp only [jtapeV, List.length_append, List.length_cons, List.length_nil, len_jtapeV, len_jtapeF, len_elemToks,
+      List.append_assoc, List.cons_append, List.nil_append]
+    rw [List.set_append_right _ _ (Nat.le_refl _)]
+    simp only [Nat.sub_self, List.set_cons_zero, List.append_assoc, List.cons_append]
+    simp only [show (2 : Nat) = 1 + 1 from rfl]
+    simp only [Nat.add_assoc, Nat.add_comm, Nat.add_left_comm]
 theorem jrun_F (n : Nat) : ∀ (fs : JFields) (after : Bytes) (fuel : Nat) (st : St),
     JValidF fs after → st.state = .key → Ctx3 st →
     run n (fuel + jstepsF fs) st (jrenderF fs ++ after) =
@@ -680,6 +797,16 @@ end
 
 /-! ### whole documents -/
 
+theorem elems_len_le : ∀ (es : List (Bytes × Scal)) (a : Bytes), ElemsValid es a →
+    es.length ≤ (renderElems es).length
+  | [], _, _ => by simp
+  | (g, s) :: r, a, hv => by
+    simp only [ElemsValid] at hv
+    have := hv.2.1.text_pos
+    have := elems_len_le r a hv.2.2.2
+    simp only [renderElems, List.length_append, List.length_cons]; omega
+
+
 mutual
 theorem jstepsV_le : ∀ (v : JVal) (a : Bytes), JValidV v a → jstepsV v ≤ 2 * (jrenderV v).length
   | .scal g s, a, hv => by
@@ -711,6 +838,16 @@ theorem jstepsV_le : ∀ (v : JVal) (a : Bytes), JValidV v a → jstepsV v ≤ 2
     have h4 : (jrenderV v).length = 1 + (jinner v).length := by
       rw [render_inner hv.2.2.2.1, hv.2.2.2.2.1]; simp; omega
     simp only [jstepsV, jrenderV, List.length_append, List.length_cons]; omega
+  | .mixed g g0 k g1 o v rest gm m0 elems gc, a, hv => by
+    simp only [JValidV] at hv
+    obtain ⟨_, _, _, _, _, hk, _, hvv, hvr, hm0, _, _, hel⟩ := hv
+    have h1 := hk.text_pos
+    have h2 := o.text_pos
+    have h3 := jstepsV_le v _ hvv
+    have h4 := jstepsF_le rest _ hvr
+    have h5 := hm0.text_pos
+    have h6 := elems_len_le elems _ hel
+    simp only [jstepsV, jrenderV, List.length_append, List.length_cons, List.length_nil]; omega
 theorem jstepsF_le : ∀ (fs : JFields) (a : Bytes), JValidF fs a → jstepsF fs ≤ 2 * (jrenderF fs).length
   | .nil, _, _ => by simp [jstepsF]
   | .cons g0 k g1 o v rest, a, hv => by
@@ -779,6 +916,8 @@ theorem kcnt_V : ∀ v : JVal, kcntV (kcontentV v) = jcntV v
   | .arrC _ first rest _ => by
     simp only [kcontentV, kcntV, kcntVs, jcntV, kcnt_V first, kcnt_Vs rest]; omega
   | .ghostIn _ _ _ v => by simp only [kcontentV, jcntV, kcnt_V v]
+  | .mixed _ _ _ _ o v rest _ _ elems _ => by
+    simp only [kcontentV, kcntV, kcntF, jcntV, kcnt_V v, kcnt_F rest, List.length_cons, List.length_map]; omega
 theorem kcnt_F : ∀ fs : JFields, kcntF (kcontentF fs) = jcntF fs
   | .nil => rfl
   | .cons _ _ _ o v rest => by simp only [kcontentF, kcntF, jcntF, kcnt_V v, kcnt_F rest]
@@ -796,6 +935,11 @@ end
 theorem erase_array (e : Nat) (m : Bool) : (Tok.array e m).erase = Tok.array e m := rfl
 theorem erase_object (e : Nat) (m : Bool) : (Tok.object e m).erase = Tok.object e m := rfl
 theorem erase_endTok (i : Nat) : (Tok.endTok i).erase = Tok.endTok i := rfl
+
+theorem elemToks_erase : ∀ (es : List (Bytes × Scal)) (a : Bytes),
+    (elemToks es a).map Tok.erase = (es.map (·.2)).map (fun s => (s.tok []).erase)
+  | [], _ => rfl
+  | (_, s) :: r, a => by simp [elemToks, Scal.tok_erase s, elemToks_erase r a]
 
 mutual
 theorem jtapeV_erase : ∀ (v : JVal) (b : Nat) (a : Bytes),
@@ -818,6 +962,15 @@ theorem jtapeV_erase : ∀ (v : JVal) (b : Nat) (a : Bytes),
       erase_array, erase_endTok, List.append_assoc, List.cons_append, List.nil_append]
     simp only [Nat.add_assoc, Nat.add_comm, Nat.add_left_comm]
   | .ghostIn _ _ _ v, b, a => by simp only [jtapeV, kcontentV, jtapeV_erase v]
+  | .mixed _ _ k g1 o v rest gm m0 elems gc, b, a => by
+    have hm : Tok.mixedContainer.erase = Tok.mixedContainer := rfl
+    simp only [jtapeV, kcontentV, ktapeV, ktapeF, kcntF, List.map_append, List.map_cons, List.map_nil,
+      Scal.tok_erase k, Scal.tok_erase m0, Op.toks_erase, jtapeV_erase v, jtapeF_erase rest, kcnt_V, kcnt_F,
+      erase_object, erase_endTok, hm, elemToks_erase, List.length_cons, List.length_map,
+      List.append_assoc, List.cons_append, List.nil_append]
+    have harith : b + 1 + (1 + o.toks.length + jcntV v) + jcntF rest + 2 + elems.length =
+        b + 1 + (1 + o.toks.length + jcntV v + jcntF rest) + 1 + (elems.length + 1) := by omega
+    rw [harith]
 theorem jtapeF_erase : ∀ (fs : JFields) (b : Nat) (a : Bytes),
     (jtapeF fs b a).map Tok.erase = ktapeF (kcontentF fs) b
   | .nil, _, _ => rfl
@@ -962,5 +1115,39 @@ theorem exampleVar_valid :
     ⟨sp, hint, fun _ => hb 32 (by decide +kernel) _⟩,
     sp, .nil, .inl (unq_valid 121 (by decide +kernel) (by decide +kernel) (by decide) (by decide)),
     fun _ => hb 61 (by decide +kernel) _, ⟨.nil, hvar, fun _ => hb 10 (by decide +kernel) _⟩⟩
+
+/-- `a={b=c d e}` + newline: an object that continues as a bare list. -/
+def exampleMixed : JFields :=
+  .cons [] ⟨false, [97]⟩ [] .eq
+    (.mixed [] [] ⟨false, [98]⟩ [] .eq (.scal [] ⟨false, [99]⟩) .nil [32] ⟨false, [100]⟩
+      [([32], ⟨false, [101]⟩)] []) .nil
+
+example : parse (jrenderF exampleMixed ++ [10]) = .ok (jtapeF exampleMixed 0 [10]) false := by
+  decide +kernel
+
+theorem mix_concrete {E d : Bytes} (hE : skipWs E = some d) (h1 : lexOperator true d = none)
+    (h2 : d.head? ≠ some 123) :
+    ∀ d2, skipWs E = some d2 → lexOperator true d2 = none ∧ d2.head? ≠ some 123 := by
+  intro d2 h; rw [hE] at h; cases h; exact ⟨h1, h2⟩
+
+theorem exampleMixed_valid :
+    JValidF exampleMixed [10] ∧ Blank [10] ∧ hasBom (jrenderF exampleMixed ++ [10]) = false := by
+  have hb : ∀ c : UInt8, isBoundary c = true → ∀ r, StartsBoundary (c :: r) := fun c h r => .inr ⟨c, r, rfl, h⟩
+  have sp : Blank [32] := .ws 32 [] (by decide +kernel) .nil
+  have u : ∀ c : UInt8, isBoundary c = false → isBlank c = false → c ≠ 34 → c ≠ 64 → (Scal.mk false [c]).ValidX :=
+    fun c a b d e => .inl (unq_valid c a b d e)
+  refine ⟨?_, .ws 10 [] (by decide +kernel) .nil, by decide +kernel⟩
+  simp only [exampleMixed, JValidF, JValidV, ElemsValid, jrenderF, jrenderV, renderElems, Op.text, Scal.text,
+    List.nil_append, List.append_nil, and_true, true_and]
+  refine ⟨.nil, .nil, u 97 (by decide +kernel) (by decide +kernel) (by decide) (by decide),
+    fun _ => hb 61 (by decide +kernel) _, .nil, .nil, .nil, sp, .nil,
+    u 98 (by decide +kernel) (by decide +kernel) (by decide) (by decide),
+    fun _ => hb 61 (by decide +kernel) _,
+    ⟨.nil, u 99 (by decide +kernel) (by decide +kernel) (by decide) (by decide), fun _ => hb 32 (by decide +kernel) _⟩,
+    u 100 (by decide +kernel) (by decide +kernel) (by decide) (by decide),
+    fun _ => hb 32 (by decide +kernel) _,
+    mix_concrete (d := [101, 125, 10]) (by decide +kernel) (by decide +kernel) (by decide),
+    sp, u 101 (by decide +kernel) (by decide +kernel) (by decide) (by decide),
+    fun _ => hb 125 (by decide +kernel) _⟩
 
 end Jomini.TextTape
